@@ -3,11 +3,16 @@ package sms
 import (
 	"bufio"
 	"bytes"
+	"errors"
 	"io"
 	"time"
 
 	"github.com/M2MGateway/go-smpp/coding/semioctet"
 )
+
+// ErrInvalidSemiOctets is returned when a time stamp or validity period
+// holds fewer semi-octet pairs than its format requires (filler nibble inside).
+var ErrInvalidSemiOctets = errors.New("sms: invalid semi-octets")
 
 type Time struct{ time.Time }
 
@@ -17,6 +22,10 @@ func (t *Time) ReadFrom(r io.Reader) (n int64, err error) {
 		return
 	}
 	blocks := semioctet.DecodeSemi(data)
+	if len(blocks) < 7 {
+		err = ErrInvalidSemiOctets
+		return
+	}
 	t.Time = time.Date(
 		2000+blocks[0],
 		time.Month(blocks[1]),
@@ -115,6 +124,10 @@ func (d *EnhancedDuration) ReadFrom(r io.Reader) (n int64, err error) {
 		data := make([]byte, 3)
 		_, err = buf.Read(data)
 		semi := semioctet.DecodeSemi(data)
+		if len(semi) < 3 {
+			err = ErrInvalidSemiOctets
+			break
+		}
 		d.Duration = time.Duration(semi[0])*time.Hour +
 			time.Duration(semi[1])*time.Minute +
 			time.Duration(semi[2])*time.Second
